@@ -13,7 +13,11 @@ Model of the signature-acceptance logic of the validator (crates/net/src/dnssec/
   over keys with the all-insecure inheritance;
 * `ValidationCache::{get,insert}` + the part of `verify_rrsets` that consults it, as a state machine
   over an explicit monotonic clock `inst` (the code's `Instant::now()`, in seconds) next to the
-  validator's wall clock `now` (`Time::current_time() as u32`).
+  validator's wall clock `now` (`Time::current_time() as u32`).  `validate` / `runHistory` are the
+  cache as it is since the repairs /repo 411522f (an entry of a Secure verdict records when the
+  signature was checked and how long it stayed valid; `get` refuses outside that span) and a831deb
+  (the key hashes the exact wire RDATA); `validatePreFix` / `runHistoryPreFix` are the cache before
+  them, kept for the regression theorems of `Proofs/C06PreFix.lean`.
 
 Times are `Nat`s below 2Â³Â² (`now`, inception, expiration) â€” the wrap-around is explicit in
 `serialCmp`; `authenticated_ttl` uses plain `u32::saturating_sub`, which is `Nat` subtraction.
@@ -185,8 +189,8 @@ structure Verdict where
 
 /-- the cache key is the `u64` of `RrsetVerificationContext::key()`; it is modelled by the byte
 stream fed to the hasher (query name/class/type, RRset key, and for every record and RRSIG its
-name, class and RDATA â€” names case-folded, **no TTL, no time**), assuming the hash is injective
-on these streams. -/
+owner name (case-folded), class and the exact uncompressed wire RDATA â€” **no TTL, no time**),
+assuming the hash is injective on these streams. -/
 abbrev CacheKey := Bytes
 
 structure CacheEntry where
@@ -194,8 +198,9 @@ structure CacheEntry where
   /-- `Instant` (seconds of the monotonic clock) until which the entry is served -/
   expires : Nat
   verdict : Verdict
-  /-- only used by the repaired cache: for a Secure verdict, the validator time at which the
-  signature was checked and the seconds it remained valid from then on -/
+  /-- `signature_span`: for a Secure verdict backed by an RRSIG, the validator time at which the
+  signature was checked and the seconds it remained valid from then on (ignored by the pre-repair
+  `get`) -/
   sigSpan : Option (Nat Ã— Nat) := none
   deriving Repr, DecidableEq, Inhabited
 
@@ -207,9 +212,8 @@ structure CacheConfig where
   negative : Option (Nat Ã— Nat) := none
   deriving Repr, DecidableEq, Inhabited
 
-/-- the live entry for `key`, if any: `ValidationCache::get` serves an entry while
-`Instant::now() < expires`; it never looks at the validator's clock nor at the signature's
-expiration. -/
+/-- the live entry for `key`, if any: `ValidationCache::get` considers an entry only while
+`Instant::now() < expires` -/
 def cacheGetE (c : Cache) (key : CacheKey) (inst : Nat) : Option CacheEntry :=
   match c.find? (fun e => e.key == key) with
   | some e => if inst < e.expires then some e else none
@@ -218,9 +222,9 @@ def cacheGetE (c : Cache) (key : CacheKey) (inst : Nat) : Option CacheEntry :=
 /-- `Duration::clamp(min, max)`; panics when `min > max` (`assert!(min <= max)`) -/
 def clampDur (x lo hi : Nat) : Nat := if x < lo then lo else if x > hi then hi else x
 
-/-- the lifetime `ValidationCache::insert` gives an entry: the first record's TTL, clamped into the
-configured range for positive (`Ok`) / negative (`Err`) results â€” **not** limited by the signature's
-remaining validity. -/
+/-- the monotonic lifetime `ValidationCache::insert` gives an entry: the first record's TTL, clamped
+into the configured range for positive (`Ok`) / negative (`Err`) results (the signature's remaining
+validity is enforced separately, through `sigSpan`) -/
 def cacheLifetime (cfg : CacheConfig) (v : Verdict) (firstTtl : Nat) : Nat :=
   match (if v.isOk then cfg.positive else cfg.negative) with
   | some (lo, hi) => clampDur firstTtl lo hi
@@ -248,8 +252,9 @@ def freshVerdict (sigValid : SigOracle) (r : Request) : Verdict :=
   | some (p, ttl) => { isOk := true, proof := p, adjustedTtl := ttl }
   | none => { isOk := false, proof := .bogus, adjustedTtl := none }
 
-/-- (repaired cache only) the span recorded with a Secure verdict: validated at `now`, the signature
-remains valid `expiration.saturating_sub(now)` seconds -/
+/-- the `signature_span` recorded with a Secure verdict (`rrsig_index` is always `Some` for an `Ok`
+Secure result of `verify_default_rrset`): validated at `now`, the signature remains valid
+`expiration.saturating_sub(now)` seconds -/
 def spanOf (v : Verdict) (r : Request) : Option (Nat Ã— Nat) :=
   if v.isOk && v.proof == .secure then some (r.now, r.rrsig.input.expiration - r.now) else none
 
@@ -283,25 +288,10 @@ def runHistoryG (sigValid : SigOracle) (cfg : CacheConfig) (serve : CacheEntry â
     let (c', v, fresh) := validateG sigValid cfg serve c r
     (v, fresh) :: runHistoryG sigValid cfg serve c' rs
 
-/-- **the code as it is**: `get` returns the stored verdict of a live entry, whatever the
-validator's clock says -/
-def serveAsIs (e : CacheEntry) (_ : Request) : Option Verdict := some e.verdict
-
-def validate (sigValid : SigOracle) (cfg : CacheConfig) (c : Cache) (r : Request) :
-    Cache Ã— Verdict Ã— Bool := validateG sigValid cfg serveAsIs c r
-
-def runHistory (sigValid : SigOracle) (cfg : CacheConfig) (c : Cache) (hist : List Request) :
-    List (Verdict Ã— Bool) := runHistoryG sigValid cfg serveAsIs c hist
-
-/-! #### the repaired cache (repo-patches/C06-validation-cache-signature-span.diff)
-
-Not the code as it is today: with a Secure verdict the entry records the validator time of the
-check and the seconds the signature remained valid from then on; `get` serves the entry only while
-the validator's clock is inside that span (serial distance, so a clock set back is a miss too) and
-hands out at most what is left of it as TTL. -/
-
-/-- repaired `get` on a live entry -/
-def serveFixed (e : CacheEntry) (r : Request) : Option Verdict :=
+/-- `ValidationCache::get` on a live entry: a Secure verdict is served only while the validator's
+clock is inside the span its signature was valid for (serial distance from the time of the check, so
+a clock that was set back is a miss too), with at most the rest of that span as TTL -/
+def serve (e : CacheEntry) (r : Request) : Option Verdict :=
   match e.sigSpan with
   | some (validatedAt, lifetime) =>
     let elapsed := (r.now + M32 - validatedAt) % M32      -- `current_time.wrapping_sub(validated_at)`
@@ -312,13 +302,27 @@ def serveFixed (e : CacheEntry) (r : Request) : Option Verdict :=
       | none => some e.verdict
   | none => some e.verdict
 
-def validateFixed (sigValid : SigOracle) (cfg : CacheConfig) (c : Cache) (r : Request) :
-    Cache Ã— Verdict Ã— Bool := validateG sigValid cfg serveFixed c r
+/-- **the code as it is** -/
+def validate (sigValid : SigOracle) (cfg : CacheConfig) (c : Cache) (r : Request) :
+    Cache Ã— Verdict Ã— Bool := validateG sigValid cfg serve c r
 
-def runHistoryFixed (sigValid : SigOracle) (cfg : CacheConfig) (c : Cache) (hist : List Request) :
-    List (Verdict Ã— Bool) := runHistoryG sigValid cfg serveFixed c hist
+def runHistory (sigValid : SigOracle) (cfg : CacheConfig) (c : Cache) (hist : List Request) :
+    List (Verdict Ã— Bool) := runHistoryG sigValid cfg serve c hist
 
-/-! #### decidable classes of the two known deviations (mirrored by the harness) -/
+/-! #### the cache before the repairs 411522f / a831deb (regression model)
+
+`get` returned the stored verdict of a live entry, whatever the validator's clock said. -/
+
+def servePreFix (e : CacheEntry) (_ : Request) : Option Verdict := some e.verdict
+
+def validatePreFix (sigValid : SigOracle) (cfg : CacheConfig) (c : Cache) (r : Request) :
+    Cache Ã— Verdict Ã— Bool := validateG sigValid cfg servePreFix c r
+
+def runHistoryPreFix (sigValid : SigOracle) (cfg : CacheConfig) (c : Cache) (hist : List Request) :
+    List (Verdict Ã— Bool) := runHistoryG sigValid cfg servePreFix c hist
+
+/-! #### decidable classes of the two pre-repair deviations (regression; mirrored by the harness:
+both flags are printed on every history line and must stay 0) -/
 
 /-- class `validation-cache-outlives-signature`: a Secure verdict served from the cache while the
 validator's clock is outside the RRSIG's window, or with a TTL above the remaining signature
